@@ -39,6 +39,7 @@ def run(F, R, ctx):
     from . import c11
     c11.union_rule(F, R, "C03.u")
     ownership_arm_rule(F, R)
+    last_use_rule(F, R)
 
 
 def _run(F, R, ctx):
@@ -310,3 +311,68 @@ def ownership_arm_rule(F, R, rid="C03.s"):
                    "the collection exists" % (fn.short(), b["line"], "; ".join(problems)), fn.loc(b["line"]),
                    sample={"fn": fn.short(), "in_place": [m[1] for m in ms], "copy": [m[1] for m in mn]})
     R.floor(rid, "functional updates with an in-place arm", n, 10)
+
+
+# ---------------------------------------------------------------------------------------------------------------------
+# C03.l — who may declare a read to be the last use of a variable
+SCOPE_END = r"ScopeMap<[^}]*\}::(remove|pop_layer)$|\{impl AnalysisPass[^}]*\}::pop_top_layer$|::pop_top_layer$"
+
+
+def last_use_rule(F, R, rid="C03.l"):
+    from .c07 import _backward, _origins
+    R.rule(rid, "a read is declared the variable's last use (SemanticInformation.last_usage, which makes the code generator "
+                "emit the moving read MOVEREADLOCAL — the value leaves the slot, and a uniquely held collection is then "
+                "updated in place) only where nothing can read the variable afterwards: every store to last_usage in the "
+                "compiler takes the read it flags from the variable's scope entry *as the scope ends* (the result of "
+                "ScopeMap::remove / pop_top_layer / pop_layer), or lies on the true side of a comparison with "
+                "CallKind::TailCall (the function returns with that call). nc: a read flagged anywhere else — e.g. at an "
+                "assignment that may not execute — is followed on some path by another read, which finds the slot emptied "
+                "(#<void>) or, worse, a holder observing an in-place update of a value it still refers to")
+    n = 0
+    for name, fn in sorted(F.fns.items()):
+        if not name.startswith("steel::compiler::"):
+            continue
+        sites = [(i, e) for i, _, e in fn.events("fld") if e[1] == "SemanticInformation" and e[2] == "last_usage" and "w" in e[3]]
+        if not sites:
+            continue
+        if re.search(r"\{impl (Clone|Debug|Default|PartialEq|Hash|Serialize|Deserialize)", name) or name.endswith("SemanticInformation}::new"):
+            continue
+        maps = _backward(fn)
+        dom = fn.dominators()
+        for i, e in sites:
+            # a constructor writing the field of a fresh value is not a flagging
+            if any(x[0] == "agg" and x[1] == "SemanticInformation" for x in fn.blocks[i]["e"]):
+                continue
+            n += 1
+            scope_end = False
+            line = fn.blocks[i].get("line")
+            for g in sorted(dom[i], reverse=True):
+                gb = fn.blocks[g]
+                if gb["k"] == "call" and re.search(r"::get_mut$", gb["callee"]) and len(gb["args"]) >= 2:
+                    line = line or gb.get("line")
+                    ko = {o.split(".")[0] for o in _origins(fn, re.match(r"_\d+", gb["args"][1]).group(0), maps, depth=30)}
+                    if any(re.search(SCOPE_END, cb["callee"]) and (cb.get("dest") or "").split(".")[0] in ko for _, cb in fn.calls()):
+                        scope_end = True
+                    break
+            tail = False
+            for g in dom[i]:
+                gb = fn.blocks[g]
+                if gb["k"] == "call" and re.search(r"\{impl PartialEq(<CallKind>)? for CallKind\}::eq$", gb["callee"]):
+                    kvs = set()
+                    for a in gb["args"]:
+                        for t in lib.TOK.findall(a):
+                            for o in _origins(fn, t, maps, depth=6) | {t}:
+                                for blk in fn.blocks:
+                                    for ev in blk["e"]:
+                                        if ev[0] == "kv" and ev[1].split(".")[0] == o.split(".")[0] and ev[2].startswith("variant:CallKind::"):
+                                            kvs.add(ev[2].split("::")[-1])
+                    br = lib.bool_branch(fn, g)
+                    if "TailCall" in kvs and br and br[0] is not None and (br[0] == i or i in fn.reachable_from([br[0]], avoid={g})) \
+                            and not (br[1] is not None and (br[1] == i or i in fn.reachable_from([br[1]], avoid={g}))):
+                        tail = True
+            R.inst(rid, "%s / last_usage set %s" % (fn.short(), "as the scope ends" if scope_end else "at a tail call" if tail else "elsewhere"),
+                   scope_end or tail,
+                   "%s flags a read as the last use of its variable (line %s) although the variable's scope has not ended there "
+                   "and the function does not return there: on a path where another read follows, that read finds the local "
+                   "moved out" % (fn.short(), line), fn.loc(line), sample=True)
+    R.floor(rid, "stores to SemanticInformation.last_usage", n, 3)
